@@ -2,6 +2,8 @@ package dbx
 
 import (
 	"fmt"
+	"math"
+	"math/big"
 	"math/rand"
 	"strings"
 )
@@ -98,9 +100,93 @@ var (
 	strPool = []string{"abc", "abd", "xyz", "ab", "", "c", "abcabc", `a"b`, `b\c`, "né", "null", "{x}", "true"}
 	// integers of every magnitude class the accessors treat alike or differently (int32 edge, beyond float32, 2^40)
 	intPool = []int64{-3, 0, 5, 7, 100, 2, 2147483647, -2147483649, 16777217, 1099511627776}
-	milliPool = []int64{0, 1500, -2500, 2000, 7000, 5000, 1}
-	listPool  = []string{"a[]", "a[x]", "a[x,y]", "a[abc,xyz,q]"}
+	// … and where an int64 stops being a float64 (the serialised form of a record is a JSON number: gjson parses it
+	// as float64 first): clusters of neighbours around ±2^53, 2^54 (spacing 4: ties up and down), 2^62, the ends of the
+	// int64 range and the float64 values next to them (2^63-1024 is the largest float64 below 2^63; 2^63-512 the tie)
+	intPoolBig = []int64{
+		1<<53 - 1, 1 << 53, 1<<53 + 1, 1<<53 + 2, 1<<53 + 3,
+		-(1<<53 - 1), -(1 << 53), -(1<<53 + 1), -(1<<53 + 3),
+		1<<54 + 2, 1<<54 + 4, 1<<54 + 6,
+		1<<62 - 1, 1 << 62, 1<<62 + 1, 4611686018427904000, 4611686018427904001,
+		math.MaxInt64, math.MaxInt64 - 1, math.MaxInt64 - 511, math.MaxInt64 - 512, math.MaxInt64 - 1023, math.MaxInt64 - 1024,
+		math.MinInt64, math.MinInt64 + 1, math.MinInt64 + 1024, math.MinInt64 + 1025,
+	}
+	milliPool = []string{"0", "1500", "-2500", "2000", "7000", "5000", "1"}
+	// float64 FIELDS of large magnitude (thousandths tokens). A float64 is serialised as the shortest decimal that
+	// reads back as the same float64 (2^62 is written 4611686018427388000), so the serialised record holds another
+	// integer literal than the value; that only shows under an integer operator on a float field (outside "Req.
+	// Type"), but the model does not compute shortest decimals: field values are float64 values whose shortest
+	// decimal IS their value (checked at start-up: textExact) — around 2^53, 2^54, 2^55, and the multiples of
+	// 1 024 000 / 2 048 000 next to 2^62 and ±2^63.
+	milliPoolBigField = textExact(bigMilli(
+		"9007199254740991", "9007199254740992", "9007199254740994", "9007199254740996", "-9007199254740992", "-9007199254740994",
+		"18014398509481984", "18014398509481988", "36028797018963976",
+		"4611686018427904000", "4611686018428928000", "9223372036853760000", "9223372036855808000", "-9223372036853760000", "-9223372036855808000"))
+	// float OPERANDS: the field values, the powers of two themselves, and decimals that are no float64 (2^53+1, the
+	// neighbours and ties of the field values, 2^63-1): what a user may write; newFloatCondition rounds them
+	milliPoolBigOperand = append(append([]string{}, milliPoolBigField...), bigMilli(
+		"9007199254740993", "9007199254740995", "-9007199254740993", "18014398509481986", "18014398509481990",
+		"4611686018427387904", "4611686018427387905", "4611686018427388416", "4611686018427388417",
+		"4611686018427904001", "4611686018427904512", "4611686018427904513", "4611686018427905024", "9223372036853760001", "9223372036853759488",
+		"9223372036854775807", "9223372036854775808", "-9223372036854775808", "-9223372036854775809", "18446744073709551616")...)
+	listPool = []string{"a[]", "a[x]", "a[x,y]", "a[abc,xyz,q]"}
 )
+
+func bigMilli(ints ...string) []string {
+	out := make([]string, len(ints))
+	for i, s := range ints {
+		n, ok := new(big.Int).SetString(s, 10)
+		if !ok {
+			panic("bigMilli: " + s)
+		}
+		out[i] = n.Mul(n, big.NewInt(1000)).String()
+	}
+	return out
+}
+
+// GenInt draws an int64 with uniform magnitude class: small / int32 / 2^40 values, or (one in three) a value
+// around ±2^53, 2^54, 2^62 or at the ends of the int64 range.
+func GenInt(r *rand.Rand) int64 {
+	if r.Intn(3) == 0 {
+		return pick(r, intPoolBig)
+	}
+	return pick(r, intPool)
+}
+
+// TextExact reports whether the float64 nearest to m/1000 is m/1000 itself AND encoding/json writes it with exactly
+// these digits (strconv's shortest round-trip decimal).
+func TextExact(m *big.Int) bool {
+	f := MilliFloat(m)
+	if FloatMilli(f).Cmp(m) != 0 {
+		return false
+	}
+	t, ok := DecimalMilli(milliJSON(m))
+	return ok && t.Cmp(m) == 0
+}
+
+func textExact(toks []string) []string {
+	var out []string
+	for _, t := range toks {
+		m, _ := MilliTok(t)
+		if !TextExact(m) {
+			panic("dbx: float field value " + t + " is not written by encoding/json with its own digits")
+		}
+		out = append(out, t)
+	}
+	return out
+}
+
+// GenMilli draws a float token (thousandths) with uniform magnitude class; operand = a query operand (any decimal)
+// rather than a field value (a float64 whose serialised text is its value).
+func GenMilli(r *rand.Rand, operand bool) string {
+	if r.Intn(3) == 0 {
+		if operand {
+			return pick(r, milliPoolBigOperand)
+		}
+		return pick(r, milliPoolBigField)
+	}
+	return pick(r, milliPool)
+}
 
 // GenFields makes a payload token. Typed records carry the full schema; JSON wrappers may lack fields or
 // hold a value of another type.
@@ -111,10 +197,10 @@ func GenFields(r *rand.Rand, form string, marker string) string {
 	}
 	fs := []string{
 		"S=s:" + s,
-		fmt.Sprintf("I=i:%d", pick(r, intPool)),
-		fmt.Sprintf("F=f:%d", pick(r, milliPool)),
+		fmt.Sprintf("I=i:%d", GenInt(r)),
+		"F=f:" + GenMilli(r, false),
 		fmt.Sprintf("B=b:%d", r.Intn(2)),
-		fmt.Sprintf("N=o{X=i:%d}", pick(r, []int64{0, 7, 9})),
+		fmt.Sprintf("N=o{X=i:%d}", pick(r, []int64{0, 7, 9, 9, 1<<53 + 1})),
 		"L=" + pick(r, listPool),
 	}
 	if form == "T" {
@@ -129,7 +215,8 @@ func GenFields(r *rand.Rand, form string, marker string) string {
 	// JSON wrapper
 	switch r.Intn(10) {
 	case 0: // wrong-typed values
-		alt := []string{"I=s:abc", "S=i:5", "F=i:2", "I=f:1500", "B=s:true", "N=s:flat", "L=s:x"}
+		alt := []string{"I=s:abc", "S=i:5", "F=i:2", "I=f:1500", "B=s:true", "N=s:flat", "L=s:x",
+			"F=i:9007199254740993", "I=f:9223372036855808000000", "F=i:-9223372036854775808", "I=f:-9223372036855808000000", "I=f:4611686018427904000000", "F=i:9223372036854775807"}
 		k := r.Intn(len(alt))
 		for i, f := range fs {
 			if f[0] == alt[k][0] && (marker == "" || f[0] != 'S') {
@@ -235,10 +322,10 @@ func GenLeaf(r *rand.Rand, st *CondStats) string {
 	switch r.Intn(22) {
 	case 0, 1, 2:
 		st.WellTyped++
-		return fmt.Sprintf("[I:%s:%d]", pick(r, []string{"eq", "gt", "ge", "lt", "le"}), pick(r, intPool))
+		return fmt.Sprintf("[I:%s:%d]", pick(r, []string{"eq", "gt", "ge", "lt", "le"}), GenInt(r))
 	case 3, 4:
 		st.WellTyped++
-		return fmt.Sprintf("[F:%s:%d]", pick(r, []string{"feq", "fgt", "fge", "flt", "fle"}), pick(r, milliPool))
+		return fmt.Sprintf("[F:%s:%s]", pick(r, []string{"feq", "fgt", "fge", "flt", "fle"}), GenMilli(r, true))
 	case 5, 6, 7:
 		st.WellTyped++
 		return fmt.Sprintf("[S:%s:%s]", pick(r, []string{"sa", "co", "sw", "ew"}), pick(r, []string{"abc", "ab", "c", "b", "xyz", "", "bc", `a"b`, "né", "null", `\\`}))
@@ -259,16 +346,20 @@ func GenLeaf(r *rand.Rand, st *CondStats) string {
 		return pick(r, []string{"[Q:ex:]", "[Q:eq:5]", "[Q:sa:abc]", "[q.r.s:ex:]", "[S.x:ex:]"})
 	case 13, 14: // sub-level, length and index selectors (README: "supported by all feeders")
 		st.SubLevel++
-		return pick(r, []string{"[N.X:eq:7]", "[N.X:ge:7]", "[L.#:eq:2]", "[L.#:gt:0]", "[L.0:sa:x]", "[L.1:sa:y]", "[N.X:ex:]", "[L.0:ex:]", "[L.5:ex:]", "[N.Y:ex:]", "[L.#:feq:2000]"})
+		return pick(r, []string{"[N.X:eq:7]", "[N.X:ge:7]", "[L.#:eq:2]", "[L.#:gt:0]", "[L.0:sa:x]", "[L.1:sa:y]", "[N.X:ex:]", "[L.0:ex:]", "[L.5:ex:]", "[N.Y:ex:]", "[L.#:feq:2000]",
+			"[N.X:eq:9007199254740993]", "[N.X:gt:9007199254740992]"})
 	case 15, 16: // operator type differs from the field type
 		st.IllTyped++
-		return pick(r, []string{"[F:eq:1]", "[F:gt:0]", "[I:feq:5000]", "[I:fgt:2500]", "[S:eq:5]", "[I:sa:5]", "[B:eq:1]", "[S:is:1]", "[N:sa:x]", "[L:sa:x]", "[F:lt:2]", "[I:fle:7000]"})
+		return pick(r, []string{"[F:eq:1]", "[F:gt:0]", "[I:feq:5000]", "[I:fgt:2500]", "[S:eq:5]", "[I:sa:5]", "[B:eq:1]", "[S:is:1]", "[N:sa:x]", "[L:sa:x]", "[F:lt:2]", "[I:fle:7000]",
+			// numeric coercions at the magnitudes where int64 and float64 part ways
+			"[I:feq:9007199254740992000]", "[I:fgt:9007199254740992000]", "[I:fle:9223372036854775807000]", "[I:flt:4611686018427387905000]",
+			"[F:eq:9007199254740993]", "[F:ge:9007199254740992]", "[F:gt:9223372036854775806]", "[F:eq:-9223372036854775808]", "[F:lt:0]", "[F:eq:4611686018427904000]", "[F:le:9223372036853760000]"})
 	case 17:
 		st.Err++
 		return fmt.Sprintf("E%d", r.Intn(5))
 	}
 	st.WellTyped++
-	return fmt.Sprintf("[I:%s:%d]", pick(r, []string{"eq", "ge", "le"}), pick(r, intPool))
+	return fmt.Sprintf("[I:%s:%d]", pick(r, []string{"eq", "ge", "le"}), GenInt(r))
 }
 
 // GenCond makes a condition tree token (`-` = no where clause).
